@@ -26,8 +26,8 @@ pairs = {}
 for r in recs:
     c = r["case"]
     if c.get("scenario") in ("single", "repro") and c["kind"] in bnd.INTCODED and not r.get("skip"):
-        pairs.setdefault((c["opt"], c["kind"]), []).append(bool(r.get("exc")))
-failing = sorted([list(k) for k, v in pairs.items() if all(v)])
+        pairs.setdefault((c["opt"], c["kind"]), []).append((r.get("cycles_budget", 0), bool(r.get("exc"))))
+failing = sorted([list(k) for k, v in pairs.items() if all(e for b, e in v if b == max(b_ for b_, _ in v))])
 known_exc = sorted({(r["case"]["opt"], r["exc"]["type"]) for r in recs if r.get("exc") and r["case"]["kind"] in bnd.CONT})
 mono = sorted(c for c in el if c not in nonmono and c not in elitist)
 lens = classify_len(an.src)
